@@ -18,7 +18,7 @@ func init() {
 	register(&Rule{ID: "R08.1", Props: []string{"C08"}, Floor: 26,
 		Doc: "pinned constants: type codes, table entry sizes, MaxSize (values via go/constant)",
 		Run: runR08_1})
-	register(&Rule{ID: "R08.2", Props: []string{"C08", "C01", "C16", "C12", "C03"}, Floor: 4,
+	register(&Rule{ID: "R08.2", Props: []string{"C08", "C01", "C16", "C12", "C03", "C05"}, Floor: 4,
 		Doc: "big/small rule: IsBigMessage = exists field over the whole table with Tag > 255 or Offset > 65535; IsBigList = len > 255 or last Offset > 65535",
 		Run: runR08_2})
 }
